@@ -20,7 +20,9 @@ EXPLANATION = (
     "unknown): the footer parser is reached only when the file has >= 12 bytes, the trailing magic "
     "matched and footer_size <= file_size - 8, then with exactly the footer_size bytes before the tail; "
     "magic and length are read inside the file; every well-formed envelope reaches the parser; "
-    "build_schema runs only after the parse status was tested; (3) carquet_writer_abort closes the stream "
+    "build_schema runs only after the parse status was tested; build_schema, executed for metadata that "
+    "declares no schema element (what a lone Thrift STOP byte parses as), returns NULL - the arena's answer "
+    "to a zero-size request is obtained by executing carquet_arena_calloc, not assumed; (3) carquet_writer_abort closes the stream "
     "and then removes the path for path-based writers, and whether it removes depends only on {owns_file, "
     "file, path}. Decides these clauses, not that every prefix of every file is rejected (that depends on "
     "byte values).")
@@ -43,11 +45,70 @@ SUPPRESS = {
 }
 
 
+def _empty_footer_rule(ctx):
+    """build_schema, executed for metadata without schema elements, returns NULL. The arena's answer to a
+    zero-size request is taken from executing carquet_arena_calloc itself, not assumed."""
+    from ..rules import sem
+    from ..rules.skeleton import Ptr, U
+    P = ctx.P
+    bs = P.fn("build_schema", FR)
+    key = "empty-footer|%s:build_schema" % FR
+    what = ("build_schema refuses metadata that declares no schema element, so a truncated file whose last bytes read as an "
+            "empty footer does not open as an empty table (abstract execution; the arena's zero-size answer is executed, not assumed)")
+    try:
+        zero_null = True
+        ac = P.fn("carquet_arena_calloc", "src/core/arena.c")
+        for cnt, sz in ((0, 4), (0, 2)):
+            outs = sem.run(P, ac, [Ptr("arena", 0, 1), cnt, sz], heap0={}, hooks={"memset": lambda ev, a, it: a[0]}, single=False, max_forks=8, budget=20000)
+            if not outs or any(r != 0 for r, ev, h in outs):
+                zero_null = False
+        mo = sem.field_offsets(P, "parquet_file_metadata")
+        heap0 = {("md", mo["schema"]): 0, ("md", mo["num_schema_elements"]): 0}
+        na = [0]
+
+        def alloc(ev, a, it):
+            total = a[1] * a[2] if isinstance(a[1], int) and isinstance(a[2], int) else U
+            ev.append(("alloc", total))
+            if total == 0 and zero_null:
+                return 0
+            na[0] += 1
+            return Ptr("a%d" % na[0], 0, 1)
+        hooks = {"carquet_arena_calloc": alloc, "carquet_error_set": lambda ev, a, it: None}
+        outs = sem.run(P, bs, [Ptr("arena", 0, 1), Ptr("md", 0, 1), 0], heap0=heap0, hooks=hooks, single=False, max_forks=16,
+                       budget=100000, on_start=lambda: na.__setitem__(0, 0))
+    except sem.Inconclusive as ex:
+        ctx.inconclusive("R3.extent", key, P.where(bs.body), what, str(ex))
+        return
+    accepted = [(r, ev) for r, ev, h in outs if r != 0]
+    if not accepted:
+        ctx.ok("R3.extent", key, P.where(bs.body), what, "returns NULL (zero-size arena requests answer NULL: %s)" % zero_null)
+        return
+    # an earlier refusal: an open path that tests the element count before it builds the schema
+    early = []
+    for g in P.funcs_in(FR, MR):
+        calls = g.calls("build_schema")
+        if not calls:
+            continue
+        tested = False
+        for n in g.body.walk():
+            if n.k == "BinaryOperator" and n.op in ("<", "<=", "==", ">", ">=", "!=") and any(
+                    x.k == "MemberExpr" and x.name == "num_schema_elements" for x in n.walk()) and g.cfg.node_dominates(n, calls[0]):
+                tested = True
+        early.append(tested)
+    if early and all(early):
+        ctx.inconclusive("R3.extent", key, P.where(bs.body), what, "build_schema accepts it, but every open path tests num_schema_elements first: not decided by this rule")
+    else:
+        ctx.bad("R3.extent", key, P.where(bs.body), what,
+                "with no schema element build_schema returns a schema (%s); nothing before it refuses the footer" % (accepted[0][1],))
+
+
 def run(ctx):
     P = ctx.P
     ctx.clause("C18.1 stream results reach the status; close flushes on every OK path")
     ctx.clause("C18.2 size/magic/footer-length validation dominates metadata parsing in all open paths")
     ctx.clause("C18.3 abort closes and removes")
+    ctx.clause("C18.7 a footer that declares no schema element (a lone Thrift STOP parses as one) is refused by every open path")
+    _empty_footer_rule(ctx)
     wf = P.funcs_in(FW)
     rf = P.funcs_in(FR, MR)
     n = R.check_status_calls(ctx, wf + rf, R.STDIO_RESULT, "R1.stdio", pid_key="stdio", suppress=SUPPRESS)
